@@ -50,12 +50,14 @@ def rules(model: Model, tier: str) -> List[RuleResult]:
         R4.bad(fc.backward, fc.backward.node, "augmented integrand no longer recognised as the callable of the recursive _mcquad")
     ac.ac5_options_forwarding(model, fc, R5, {"_mcquad"})
     ac.ac6_layout(model, fc, R6)
+    R6f = RuleResult(PROP, "AC6f", "family consistency: f-side and p-side functions, counts, separators and parameter lists are never crossed", min_instances=10)
+    ac.ac6_family_consistency(model, fc, R6f)
     _unused_params(model, U)
     _sampler_protocol(model, S)
     _counts(model, N)
     _weights(model, W)
     _same_samples(model, fc, B)
-    return [R1, R2, R3, R4, R5, R6, U, S, N, W, B]
+    return [R1, R2, R3, R4, R5, R6, R6f, U, S, N, W, B]
 
 
 def _unused_params(model: Model, U: RuleResult):
@@ -205,6 +207,21 @@ def _counts(model: Model, N: RuleResult):
             N.ok(h.fq, "%s: state `%s` advanced inside the loop" % (helper, st))
         else:
             N.bad(h, lp, "the chain state `%s` is never advanced inside the loop" % st)
+        # the sample of iteration i is the state *after* the i-th step: in the loop body the store follows every
+        # statement that advances the state
+        if good and steps:
+            def top_index(node):
+                for k, b in enumerate(lp.body):
+                    if any(x is node for x in ast.walk(b)):
+                        return k
+                return -1
+            si = top_index(good[0])
+            adv = [top_index(x) for x in steps]
+            if all(a < si for a in adv):
+                N.ok(h.fq, "%s: the store follows the state transition of the same iteration" % helper)
+            else:
+                N.bad(h, good[0], "the sample is stored before the state is advanced in that iteration: the collected samples are the burned-in "
+                      "state plus the first count-1 new states, and the last drawn state is never used")
 
 
 def _weights(model: Model, W: RuleResult):
